@@ -472,7 +472,11 @@ def expected_outward(text, items, pos):
     return out
 
 
-def expected_inward(text, items, pos):
+def expected_inward(text, items, pos, value_body=False):
+    """value_body=False: the body of a first-child declaration reached by descending is the text
+    between its colon and its semicolon without surrounding blanks (what the code and upstream
+    Emmet report: a comment before the `;` is included); value_body=True: it is the value itself,
+    as for a directly hit declaration.  The statement pins neither, both are accepted."""
     for n in postorder(items):
         if n['t'] == 'decl':
             if n['start'] <= pos <= n['vend']:
@@ -489,7 +493,10 @@ def expected_inward(text, items, pos):
                     n = n['children'][0] if n['children'] else None
                 else:
                     # the text between the colon and the semicolon, without surrounding blanks
-                    push(out, trim(text, n['colon'] + 1, n['end'] - 1))
+                    if value_body:
+                        push(out, (n['vstart'], n['vend']))
+                    else:
+                        push(out, trim(text, n['colon'] + 1, n['end'] - 1))
                     n = None
             return out
     return []
@@ -506,7 +513,7 @@ def c10_oracle(text, items, pos, got):
     if got['outward'] != exp:
         bad.append(('outward', 'balanced_outward(pos=%d) = %r, the record says %r' % (pos, got['outward'], exp)))
     exp = ('ok', expected_inward(text, items, pos))
-    if got['inward'] != exp:
+    if got['inward'] != exp and got['inward'] != ('ok', expected_inward(text, items, pos, value_body=True)):
         bad.append(('inward', 'balanced_inward(pos=%d) = %r, the record says %r' % (pos, got['inward'], exp)))
     return bad
 
